@@ -226,6 +226,16 @@ def explain(ex, limit=60):
     return ' '.join(parts)
 
 
+def split_root(run_root, bound, lock_bonus=0, nchunks=16):
+    """Generic form: ``run_root()`` executes the default schedule and returns
+    its Execution; returns the first-level deviation prefixes in groups."""
+    from ..procs import children
+    ex = run_root()
+    drop_templates()
+    ch = children(ex, [], bound, lock_bonus)
+    return [ch[k::nchunks] for k in range(nchunks) if ch[k::nchunks]]
+
+
 def split_prefixes(layout, names, programs, bound, lock_bonus=0,
                    deliver=False, nchunks=16):
     """Run the default schedule once and return the first-level deviation
